@@ -14,3 +14,5 @@ import VibeProof.Props.C29
 #print axioms VibeProof.C29.C29_md5_unknown_user
 #print axioms VibeProof.C29.C29_md5_other_format
 #print axioms VibeProof.C29.C29_md5_argon2_entry
+#print axioms VibeProof.C29.C29_md5_accept_implies_md5_entry
+#print axioms VibeProof.C29.C29_md5_non_md5_secret_rejects_all
